@@ -230,3 +230,37 @@ func HealthCheck(ctx context.Context, db Database) error {
 
 	return nil
 }
+
+// validateColumnTypeShape is the structural half of column type validation
+// shared by the dialects. The character whitelist alone lets a "type" smuggle
+// in more than a type: `TEXT, extra INT` adds a column, and
+// `INT CHECK (n IN (SELECT id FROM other))` reads another table. Parentheses
+// may therefore hold numbers only (length, precision, scale), may not nest,
+// and a comma may appear only inside them.
+func validateColumnTypeShape(colType string) error {
+	depth := 0
+	for _, ch := range colType {
+		switch {
+		case ch == '(':
+			depth++
+			if depth > 1 {
+				return fmt.Errorf("invalid column type: nested parentheses in %q", colType)
+			}
+		case ch == ')':
+			depth--
+			if depth < 0 {
+				return fmt.Errorf("invalid column type: unbalanced parentheses in %q", colType)
+			}
+		case ch == ',':
+			if depth == 0 {
+				return fmt.Errorf("invalid column type: %q defines more than one column", colType)
+			}
+		case depth > 0 && ch != ' ' && (ch < '0' || ch > '9'):
+			return fmt.Errorf("invalid column type: only numbers are allowed in parentheses in %q", colType)
+		}
+	}
+	if depth != 0 {
+		return fmt.Errorf("invalid column type: unbalanced parentheses in %q", colType)
+	}
+	return nil
+}
